@@ -252,4 +252,12 @@ def detectAndParse {β} (tok : List Char → Option β) (lines : List (List Char
     | some t => some t
     | none => detectAndParse tok lines ss
 
+/-- a stand-in for `float(field)` used by the driver: accepts non-empty fields made of digits, sign,
+point and exponent letters, and returns the field verbatim (the harness converts it) -/
+def numericTok (t : List Char) : Option String :=
+  if t.isEmpty then none
+  else if t.all (fun c => c.isDigit || c == '+' || c == '-' || c == '.' || c == 'e' || c == 'E'
+                          || c == 'n' || c == 'a' || c == 'i' || c == 'f')
+  then some (String.ofList t) else none
+
 end PyxelModel.C20
